@@ -6,6 +6,7 @@ import numpy as np
 
 from .. import e2e, gen, probes
 from ..common import Outcome, subseed
+from ..oracles import EPS
 
 LEVEL = "exploration"
 RULE = ("one case = one problem (convex: qp, qp_quartic, qp_softplus; benchmark-like: sphere, quartic, styblinski_tang, rosenbrock) with a "
@@ -25,7 +26,7 @@ MODES = (None, "2-point", "3-point", "cs")
 
 def floors(tier):
     return {"fd_runs": 600, "stencil_points_checked": 20000, "value_comparisons": 250, "runs_active_bound_at_optimum": 250,
-            "mode:None": 100, "mode:2-point": 100, "mode:3-point": 100, "mode:cs": 40, "degenerate_side_runs": 40, "settings_leak_checks": 60, "fd_restarts": 200, "problems_with_gradient_scaler": 30, "problems_with_logger": 40, "problems_whose_objective_returns_a_reused_array": 25, "problems_with_nested_finite_difference_run": 20, "__nontrivial__": 200}
+            "mode:None": 100, "mode:2-point": 100, "mode:3-point": 100, "mode:cs": 40, "degenerate_side_runs": 40, "settings_leak_checks": 60, "fd_restarts": 200, "finite_difference_gradients_compared_with_the_exact_one": 300, "finite_difference_gradients_with_a_box_side_below_the_step": 30, "problems_with_gradient_scaler": 30, "problems_with_logger": 40, "problems_whose_objective_returns_a_reused_array": 25, "problems_with_nested_finite_difference_run": 20, "__nontrivial__": 200}
 
 
 def cases(tier, seed):
@@ -33,7 +34,7 @@ def cases(tier, seed):
     nprob = 260 if tier == "quick" else 8000
     for i in range(nprob):
         fam = gen.pick(rng, list(CONVEX) * 2 + list(OTHER))
-        ps = gen.rand_spec(rng, (fam,), nmax=7, boxes=("mixed", "boxed", "narrow", "narrow_far", "lower", "upper", "boxed_degenerate", "boxed_degenerate", "nonneg", "unit", "zero_mixed"),
+        ps = gen.rand_spec(rng, (fam,), nmax=7, boxes=("mixed", "boxed", "narrow", "narrow_far", "lower", "upper", "boxed_degenerate", "boxed_degenerate", "nonneg", "unit", "zero_mixed", "sliver", "sliver"),
                            starts=("face", "vertex", "outward", "interior"), condmax=1e3)
         if i % 13 == 12:
             ps["n"] = int(rng.integers(20, 41))  # scale: stencils of 20 to 40 points per gradient (80 with the central scheme)
@@ -107,6 +108,27 @@ def run(spec):
             if not (gap <= 1e-6):
                 out.violate("fd_solution_differs_from_exact", f"{name}: f with finite differences = {ff!r} ({tr.snap['message']}, {tr.snap['nit']} it), with the "
                             f"exact gradient = {fe!r} ({exact.snap['message']}, {exact.snap['nit']} it): relative gap {gap:.3e}", **tags)
+                break
+        if fam in CONVEX and mode is None and "L" in P.meta and "Fabs" in P.meta:
+            # "the accuracy of the differencing scheme", state by state: with jac=None the step is the absolute eps, cut down to the box
+            # where the box is narrower; the reported gradient is then the exact one up to L*h (truncation) + eps_machine*|f|/h (rounding)
+            width = P.ub - P.lb
+            h = np.where(width > 0, np.minimum(spec["eps"], width), spec["eps"])
+            for who, snap in [(f"callback#{i2}", r["snap"]) for i2, r in enumerate(tr.cb)] + [("result", tr.snap)]:
+                xs = np.asarray(snap["x"], dtype=float)
+                ge = P.g(xs.copy()) * sfac
+                tolv = 10.0 * float(P.meta["L"](xs)) * abs(sfac) * h + 400.0 * EPS * float(P.meta["Fabs"](xs)) * abs(sfac) / h + 1e-9
+                dev = np.abs(np.asarray(snap["jac"], dtype=float) - ge)
+                free = width > 0
+                out.count("finite_difference_gradients_compared_with_the_exact_one")
+                if np.any(width[free] <= spec["eps"]):
+                    out.count("finite_difference_gradients_with_a_box_side_below_the_step")
+                if np.any(dev[free] > tolv[free]):
+                    i3 = int(np.nonzero(free & (dev > tolv))[0][0])
+                    out.violate("fd_gradient_inaccurate", f"{name}: {who}: reported gradient component {i3} = {snap['jac'][i3]!r} but the exact one is {ge[i3]!r} "
+                                f"(difference {dev[i3]:.3e}, accuracy of the scheme {tolv[i3]:.3e}; box side {width[i3]:.3e}, step {spec['eps']:g})", **tags)
+                    break
+            if out.violations:
                 break
         # the run split in two (stopped by maxiter, continued from its result): nfev keeps counting every evaluation
         if not spec.get("scaler"):
